@@ -1119,6 +1119,31 @@ def binop_extra(eng, op, a, b, state):
     return None
 
 
+def _total_ordering(eng, cls):
+    ci = eng.program.cls(cls)
+    return ci is not None and any(d.endswith("total_ordering") for d in ci.decorators) and eng.find_method(cls, "__lt__")
+
+
+def _synth(eng, op, a, b, state, node):
+    """functools.total_ordering (A10): __le__/__gt__/__ge__ derived from __lt__ and ==
+         a <= b : r = a.__lt__(b); NotImplemented if r is; else r or a == b
+         a >  b : not r and a != b          a >= b : not r"""
+    for r, st in eng.call_method(a, "__lt__", [b], {}, state, node):
+        if isinstance(r, (Exc, VNotImpl)):
+            yield r, st
+            continue
+        lt = truth(r)
+        if op == "GtE":
+            yield VBool(z3.Not(lt)), st
+            continue
+        for e, s2 in richcmp(eng, "Eq", a, b, st, node):
+            if isinstance(e, Exc):
+                yield e, s2
+                continue
+            eq = truth(e)
+            yield VBool(z3.Or(lt, eq) if op == "LtE" else z3.And(z3.Not(lt), z3.Not(eq))), s2
+
+
 @reg("__richcmp__")
 def richcmp(eng, op, a, b, state, node):
     def gen():
@@ -1134,6 +1159,13 @@ def richcmp(eng, op, a, b, state, node):
                 else:
                     yield r, st
             return
+        if isinstance(a, VObj) and op in ("LtE", "Gt", "GtE") and _total_ordering(eng, a.cls):
+            for r, st in _synth(eng, op, a, b, state, node):
+                if isinstance(r, VNotImpl):
+                    yield from second(st)
+                else:
+                    yield r, st
+            return
         yield from second(state)
 
     def second(st):
@@ -1141,6 +1173,13 @@ def richcmp(eng, op, a, b, state, node):
         refl = eng.CMPN[eng.REFL[op]]
         if isinstance(b, VObj) and eng.find_method(b.cls, refl):
             for r, s2 in eng.call_method(b, refl, [a], {}, st, node):
+                if isinstance(r, VNotImpl):
+                    yield from fallback(s2)
+                else:
+                    yield r, s2
+            return
+        if isinstance(b, VObj) and eng.REFL[op] in ("LtE", "Gt", "GtE") and _total_ordering(eng, b.cls):
+            for r, s2 in _synth(eng, eng.REFL[op], b, a, st, node):
                 if isinstance(r, VNotImpl):
                     yield from fallback(s2)
                 else:
